@@ -77,6 +77,30 @@ func StringerShapesR5() []*Type {
 	return out
 }
 
+// GoStringerShapesR5 (IDs 420–429): named STRUCT types whose GoString method is the derived function, the
+// way the plugin is meant to be used (`func (p GPoint) GoString() string { return deriveGoStringGPoint(p) }`),
+// with a value and with a pointer receiver.  %#v calls such a method on every operand it meets, map keys and
+// elements included; the plugin itself never hands a struct to fmt, so the text must be what it is without
+// the method.  The carriers are used as COMPONENTS only (key, element, field, pointer target): as a root
+// type the harness' own deriveGoString_<i> would be a second name for the function of the same type, which
+// goderive refuses (C11).  Named basic / slice / array / map types with such a VALUE-receiver method are
+// not included: there the generated function prints `this` with %#v, which calls the method, which calls
+// the generated function (see notes/C06.md, round 5).
+func GoStringerShapesR5(c *Catalogue) []*Type {
+	s, i := B("string"), B("int")
+	gp := Named(420, "GPoint", 0, St(i, s))
+	gp.Methods = "func (p GPoint) GoString() string { return deriveGoStringGPoint(p) }\n\n"
+	gc := Named(421, "GCell", 0, St(s, P(i), Sl(s)))
+	gc.Methods = "func (c *GCell) GoString() string { return deriveGoStringGCell(c) }\n\n"
+	ga := Named(422, "GPair", 0, St(gp, Ar(2, i)))
+	ga.Methods = "func (p GPair) GoString() string { return deriveGoStringGPair(p) }\n\n"
+	holder := Named(423, "GHolder", 0, St(gp, P(gp), Sl(gp), M(gp, s), M(s, gp), P(gc), Sl(P(gc)), M(ga, i)))
+	return []*Type{
+		M(gp, s), M(gp, i), M(gp, B("bool")), M(ga, s), M(gp, P(i)), M(s, gp), M(i, P(gc)), Sl(gp), Sl(P(gc)), Ar(2, gp), P(gp),
+		St(M(gp, s), gp), St(gp, P(gc), i), P(St(M(gp, i))), holder, P(holder), Sl(M(gp, s)), M(s, M(gp, s)),
+	}
+}
+
 // ---------- 2. maps whose keys own pointers ----------
 
 // PtrKeyTypesR5 (IDs 450–469).
